@@ -343,7 +343,11 @@ def write_evidence(check, tier, seed, results, wall, skipped, known_seen, n_new,
     probes = collections.Counter()
     states = set()
     injections = collections.Counter()
+    maxima = {}
     for r in ok:
+        for k_, v_ in r.get("maxima", {}).items():
+            if v_ > maxima.get(k_, float("-inf")):
+                maxima[k_] = v_
         faults.update(r.get("faults", {}))
         probes.update(r.get("probes", {}))
         injections.update(r.get("injections", {}))
@@ -370,6 +374,7 @@ def write_evidence(check, tier, seed, results, wall, skipped, known_seen, n_new,
             "faults_fired": dict(faults),
             "attacker_injections": dict(injections),
             "probes": dict(probes),
+            "maxima_over_runs": maxima,
             "abstract_states": len(states),
             "vacuous_runs": sum(1 for r in ok if r.get("vacuous")),
             "skipped_by_budget": skipped,
